@@ -220,12 +220,26 @@ def check_molecule(ctx, case):
     if case.get('as_mol'):
         from rdkit import Chem
         arg = Chem.MolFromSmiles(smi)
-    d = observe(lib.GetDescriptors, arg)
+    # hand-off: the two steps of the protocol run in different threads, one
+    # after the other (a reused worker pool): "the molecule decomposed
+    # immediately before the estimate" does not depend on who ran what
+    from vmon.core.threads import in_worker
+    ho = case.get('handoff')
+    if ho == 'decompose in worker':
+        d = observe(in_worker, lib.GetDescriptors, arg)
+    else:
+        d = observe(lib.GetDescriptors, arg)
     ctx.evals()
     if 'exc' in d:
         ctx.skip('molecule not decomposable by this scheme (%s)' % d['exc'])
         return
-    e = observe(lib.Estimate, d['ok'], 'thermochem')
+    if ho == 'estimate in worker':
+        e = observe(in_worker, lib.Estimate, d['ok'], 'thermochem')
+    else:
+        e = observe(lib.Estimate, d['ok'], 'thermochem')
+    if ho:
+        ctx.count('protocol_steps_handed_between_threads')
+        ctx.klass('hand-off: ' + ho)
     if 'exc' in e:
         ctx.skip('no estimate (%s)' % e['exc'])
         return
@@ -443,8 +457,12 @@ def run_shard(ctx):
         seen = []
         for k, s in enumerate(pl):
             if ctx.mine(i):
-                check_molecule(ctx, {'lib': name, 'smiles': s,
-                                     'as_mol': k % 5 == 3})
+                c_ = {'lib': name, 'smiles': s, 'as_mol': k % 5 == 3}
+                if k % 4 == 1:
+                    c_['handoff'] = 'decompose in worker'
+                elif k % 4 == 2:
+                    c_['handoff'] = 'estimate in worker'
+                check_molecule(ctx, c_)
                 # ... and a molecule this library object decomposed two
                 # steps ago once more (A, B, A): "decomposed immediately
                 # before the estimate" also when it is not the first time
